@@ -219,9 +219,12 @@ func runC17(t *rapid.T) {
 			w.S.Note(hx.Fingerprint(cfg, ops))
 		case 7:
 			o := lop{Kind: "register", R: drawLegacyRune(t, members), FB: rapid.SampledFrom([]string{"x", "#", "=", "%"}).Draw(t, "fb")}
-			if lm.Width(o.R) == 2 {
+			if lm.Width(o.R) == 2 && rapid.Bool().Draw(t, "fbwide") {
 				o.FB += "~" // "the display string should be the same width as the original rune"
 			}
+			// (a one-column substitute for a wide rune is tolerated by the
+			// library: the second column is then unspecified, but the cells
+			// to the right must still land in their own columns)
 			ops = append(ops, o)
 		case 8:
 			ops = append(ops, lop{Kind: "unregister", R: drawLegacyRune(t, members)})
@@ -344,13 +347,21 @@ func (w *dw) afterShowLegacy() {
 				// an unrepresentable wide rune: substitute plus a blank, two columns
 				second := ' '
 				ok := false
+				anySecond := false
 				if fb, has := w.fallbacks[g.R]; has && len(fb) == 2 {
 					second = rune(fb[1])
 					ok = c.R == rune(fb[0]) && !c.Alt
+				} else if has && len(fb) == 1 {
+					if _, acs := acsByte(w.Ti.AltChars, w.Ti.EnterAcs, g.R); !acs {
+						ok = c.R == rune(fb[0]) && !c.Alt
+						anySecond = true // narrow substitute: the second column is not defined
+					} else {
+						ok = legacyGlyphOK(w, c, g)
+					}
 				} else {
 					ok = legacyGlyphOK(w, c, g)
 				}
-				ok = ok && c.Width == 1 && x+1 < m.W && w.T.At(x+1, y).R == second && w.T.At(x+1, y).Width == 1
+				ok = ok && c.Width == 1 && x+1 < m.W && (anySecond || (w.T.At(x+1, y).R == second && w.T.At(x+1, y).Width == 1))
 				if !ok {
 					w.fail("C17/width", "cell (%d,%d) holds wide %q (U+%04X: %s): terminal shows %q then %q", x, y, g.R, g.R, w.why(g.R), c.Text(), w.T.At(x+1, y).Text())
 					return
